@@ -1040,7 +1040,7 @@ func (r *RouteTrie) RemovePool(cidr ip.CIDR) {
 }
 
 func (r *RouteTrie) UpdateBlockRoute(cidr ip.CIDR, nodeName string) {
-	r.updateCIDR(cidr, func(ri *RouteInfo) {
+	changed := r.updateCIDR(cidr, func(ri *RouteInfo) {
 		block := Block{NodeName: nodeName}
 
 		if len(ri.Blocks) == 0 {
@@ -1049,13 +1049,30 @@ func (r *RouteTrie) UpdateBlockRoute(cidr ip.CIDR, nodeName string) {
 			ri.Blocks[0] = block
 		}
 	})
+	if changed {
+		r.markBlockChildrenDirty(cidr)
+	}
 }
 
 func (r *RouteTrie) RemoveBlockRoute(cidr ip.CIDR) {
-	r.updateCIDR(cidr, func(ri *RouteInfo) {
+	changed := r.updateCIDR(cidr, func(ri *RouteInfo) {
 		// The datastore constraints guarantee that we only see one Block for a CIDR.
 		ri.Blocks = nil
 	})
+	if changed {
+		r.markBlockChildrenDirty(cidr)
+	}
+}
+
+// markBlockChildrenDirty re-flags the routes contained in a block route that changed: a contained
+// route takes its workload type and its borrowed flag from the enclosing block entry, so it has to
+// be recalculated along with the block.  A single-address block route (a borrowed IP) contains
+// nothing but itself, which updateCIDR has already marked dirty.
+func (r *RouteTrie) markBlockChildrenDirty(cidr ip.CIDR) {
+	if cidr.IsSingleAddress() {
+		return
+	}
+	r.markChildrenDirty(cidr)
 }
 
 func (r *RouteTrie) AddHost(cidr ip.CIDR, nodeName string) {
